@@ -1,3 +1,164 @@
 import Driver.Common
-/-! Driver for property C06 (stub: the model for this property is not built yet). -/
-def main : IO Unit := Driver.run (fun (s : Unit) _ => (s, "unimplemented")) ()
+import TxdbusModel.Auth.ServerLines
+import TxdbusModel.Auth.Mechs
+import TxdbusModel.Auth.SpecServer
+/-!
+Driver for property C06.  One case per line, one answer per line.
+
+  S <guid> <script> <read>*           scripted mechanisms; script = `-` or items `A` / `R` / `C<hex>` joined by `,`
+  R <guid> <env> <read>*              the real mechanisms; env = `creds;passwd;dirs;files;now;ctx;sha`
+                                        creds  `-` or uid
+                                        passwd `-` or name:uid:gid:home joined by `,` (name, home hex)
+                                        dirs   `-` or home:a|g|b joined by `,`
+                                        files  `-` or home:ID.TIME.COOKIE/ID.TIME.COOKIE.. joined by `,` (empty file: `home:`)
+                                        sha    `-` or in:out joined by `,` (hex)
+  B <op> <hex>                        bytes helpers
+  P <offered,..> <limit> <phase> <rejects> <line> <verdict>   one step of the spec table
+
+Bytes travel as hex (`-` = empty).
+-/
+open Txdbus.AuthServer
+
+namespace DrvC06
+
+def hx (b : Bytes) : String := Driver.bytesToHex b
+def unhx (s : String) : Bytes := (Driver.hexToBytes? s).getD []
+def hxs (l : List Bytes) : String := if l.isEmpty then "-" else ",".intercalate (l.map hx)
+def bit (b : Bool) : String := if b then "1" else "0"
+
+def stName : St → String
+  | .waitingForAuth => "WaitingForAuth" | .waitingForData => "WaitingForData" | .waitingForBegin => "WaitingForBegin"
+
+def splitNE (s : String) (sep : String) : List String :=
+  if s == "-" || s == "" then [] else s.splitOn sep
+
+def parseScript (s : String) : List Outcome :=
+  (splitNE s ",").map fun it =>
+    if it == "A" then .accept
+    else if it == "R" then .reject
+    else .challenge (unhx ((it.drop 1).toString))
+
+def protoOut {W I : Type} (p : Proto W I) : String :=
+  s!"sent={hxs p.sent} closed={bit p.closed} auth={bit p.authenticated} crashed={bit p.crashed} " ++
+  s!"guid={match p.guid with | some g => hx g | none => "none"} bin={hx p.binary} " ++
+  s!"handed={hxs (p.log.map (·.line))} state={stName p.srv.state} rejects={p.srv.rejects} " ++
+  s!"srvauth={bit p.srv.authenticated} cur={match p.srv.cur with | some (n, _) => hx n | none => "none"}"
+
+def runScripted (ws : List String) : String :=
+  match ws with
+  | guid :: script :: reads =>
+    let S := scripted (Txdbus.Gen.ServerAuth.mechTable.map (·.1))
+    let p0 : Proto ScriptWorld Unit := Proto.init (unhx guid) ⟨parseScript script, 0, 0⟩
+    let p := runReads S p0 (reads.map unhx)
+    protoOut p ++ s!" cancels={p.srv.world.cancels} steps={p.srv.world.steps}"
+  | _ => "bad-input"
+
+def rndFn (k n : Nat) : Bytes := (List.range n).map fun j => UInt8.ofNat ((k * 131 + j * 17 + 7) % 256)
+
+def parsePasswd (s : String) : List PwEnt :=
+  (splitNE s ",").filterMap fun e =>
+    match e.splitOn ":" with
+    | [n, u, g, h] => some ⟨unhx n, u.toNat!, g.toNat!, unhx h⟩
+    | _ => none
+
+def parseDirs (s : String) : List (Bytes × DirState) :=
+  (splitNE s ",").filterMap fun e =>
+    match e.splitOn ":" with
+    | [h, d] => some (unhx h, if d == "g" then .good else if d == "b" then .bad else .absent)
+    | _ => none
+
+def parseFiles (s : String) : List (Bytes × List CookieEnt) :=
+  (splitNE s ",").filterMap fun e =>
+    match e.splitOn ":" with
+    | [h, es] =>
+      some (unhx h, (splitNE es "/").filterMap fun c =>
+        match c.splitOn "." with
+        | [i, t, k] => some ⟨i.toNat!, t.toNat!, unhx k⟩
+        | _ => none)
+    | _ => none
+
+def parseSha (s : String) : Bytes → Bytes :=
+  let tbl : List (Bytes × Bytes) := (splitNE s ",").filterMap fun e =>
+    match e.splitOn ":" with
+    | [a, b] => some (unhx a, unhx b)
+    | _ => none
+  fun x => match tbl.find? (fun p => p.1 = x) with
+    | some p => p.2
+    | none => []
+
+def filesOut (w : RealWorld) : String :=
+  let fs := w.files.map fun (h, es) => hx h ++ ":" ++ "/".intercalate (es.map fun e => s!"{e.id}.{hx e.cookie}")
+  let fs := fs.toArray.qsort (· < ·) |>.toList
+  if fs.isEmpty then "-" else ",".intercalate fs
+
+def dirsOut (w : RealWorld) : String :=
+  let ds := w.dirs.filter (fun p => p.2 ≠ .absent) |>.map fun (h, d) => hx h ++ ":" ++ (if d = .good then "g" else "b")
+  let ds := ds.toArray.qsort (· < ·) |>.toList
+  if ds.isEmpty then "-" else ",".intercalate ds
+
+def runReal (ws : List String) : String :=
+  match ws with
+  | guid :: env :: reads =>
+    match env.splitOn ";" with
+    | [creds, passwd, dirs, files, now, ctx, sha] =>
+      let cfg : EnvCfg := ⟨if creds == "-" then none else some creds.toNat!, parsePasswd passwd, now.toNat!, rndFn,
+                           parseSha sha, unhx ctx⟩
+      let w : RealWorld := ⟨cfg, parseDirs dirs, parseFiles files, 0⟩
+      let p0 : Proto RealWorld Inst := Proto.init (unhx guid) w
+      let p := runReads real p0 (reads.map unhx)
+      protoOut p ++ s!" files={filesOut p.srv.world} dirs={dirsOut p.srv.world} rnd={p.srv.world.rndCalls}"
+    | _ => "bad-env"
+  | _ => "bad-input"
+
+def runBytes (ws : List String) : String :=
+  match ws with
+  | [op, h] =>
+    let b := unhx h
+    if op == "splitws" then hxs (splitWs b)
+    else if op == "strip" then hx (strip b)
+    else if op == "unhex" then (match unhexlify b with | some r => "ok:" ++ hx r | none => "error")
+    else if op == "hex" then hx (hexlify b)
+    else if op == "ascii" then bit (isAscii b)
+    else if op == "utf8" then bit (utf8Valid b)
+    else if op == "int" then (match parseInt b with | some n => s!"ok:{n}" | none => "error")
+    else if op == "crlf" then (let r := splitCRLF b; hxs r.1 ++ "|" ++ hx r.2)
+    else if op == "cmd" then (let r := splitCmd b; hx r.1 ++ "|" ++ hx r.2)
+    else if op == "dec" then hx (natToDec b.length)
+    else "bad-op"
+  | _ => "bad-input"
+
+def phaseOf (s : String) : Spec.Phase :=
+  if s == "WaitingForAuth" then .waitingForAuth else if s == "WaitingForData" then .waitingForData
+  else if s == "WaitingForBegin" then .waitingForBegin else if s == "authenticated" then .authenticated else .closed
+
+def phaseName : Spec.Phase → String
+  | .waitingForAuth => "WaitingForAuth" | .waitingForData => "WaitingForData"
+  | .waitingForBegin => "WaitingForBegin" | .authenticated => "authenticated" | .closed => "closed"
+
+def runSpec (ws : List String) : String :=
+  match ws with
+  | [offered, limit, phase, rejects, line, verdict] =>
+    let off := (splitNE offered ",").map unhx
+    let v : Spec.Verdict := if verdict == "A" then .accept else if verdict == "R" then .reject
+      else .moreData (unhx ((verdict.drop 1).toString))
+    let r := Spec.step off limit.toNat! ⟨phaseOf phase, rejects.toNat!⟩ (Spec.parse (unhx line)) v
+    let rep := match r.2 with
+      | .rejected ms => "rejected:" ++ hxs ms
+      | .ok => "ok"
+      | .data c => "data:" ++ hx c
+      | .error => "error"
+      | .nothing => "nothing"
+    s!"{phaseName r.1.phase} {r.1.rejects} {rep}"
+  | _ => "bad-input"
+
+def step (_ : Unit) (line : String) : Unit × String :=
+  match Driver.words line with
+  | "S" :: ws => ((), runScripted ws)
+  | "R" :: ws => ((), runReal ws)
+  | "B" :: ws => ((), runBytes ws)
+  | "P" :: ws => ((), runSpec ws)
+  | _ => ((), "bad-input")
+
+end DrvC06
+
+def main : IO Unit := Driver.run DrvC06.step ()
